@@ -162,6 +162,13 @@ func advGrid() []advCase {
 		add(fmt.Sprintf("array-%d-nested", n), exp, func() string {
 			return "local r = {{" + items() + "7}, {1, 2}}\nreturn #r[1], r[1][" + strconv.Itoa(n) + "]"
 		})
+		// an open-ended last field that yields NO value at run time (the extended SETLIST still owns its batch word)
+		add(fmt.Sprintf("array-%d-call0", n), fmt.Sprintf("ok:%d,7,123,456,5", n), func() string {
+			return "local first, second = 123, 456\nlocal function f0() end\nlocal r = {" + items() + "7, f0()}\nlocal after = 5\nreturn #r, r[" + strconv.Itoa(n) + "], first, second, after"
+		})
+		add(fmt.Sprintf("array-%d-vararg0", n), fmt.Sprintf("ok:%d,7,123,456,5", n), func() string {
+			return "local function mk(...) local first, second = 123, 456 local r = {" + items() + "7, ...} local after = 5 return r, first, second, after end\nlocal r, a, b, c = mk()\nreturn #r, r[" + strconv.Itoa(n) + "], a, b, c"
+		})
 		// the constructor used DIRECTLY as an operand (its last emitted word is then the one operand propagation looks at:
 		// for > 25550 items that is the raw batch number behind the extended SETLIST), in a chunk/function without locals
 		ctor := func() string { return "{" + items() + "7}" }
@@ -178,6 +185,30 @@ func advGrid() []advCase {
 		})
 		add(fmt.Sprintf("array-%d-operand-store", n), exp, func() string {
 			return "G = #" + ctor() + "\nT = {n = #" + ctor() + ", " + ctor() + "}\nreturn T.n, T[1][G]"
+		})
+	}
+	// ---- C2. runs of consecutive local-to-local assignments (merged into MOVEN groups by patchCode; a group holds at most
+	// 512 moves), lengths around every multiple of the group limit; the expected values are computed here
+	for _, n := range []int{2, 3, 50, 199, 255, 256, 257, 510, 511, 512, 513, 514, 515, 516, 600, 1023, 1024, 1025, 1026, 1027, 1100, 1535, 1536, 1537, 1538, 2049} {
+		n := n
+		vals := []int{10, 20, 30, 40, 50, 60, 70}
+		var sb strings.Builder
+		for i := 0; i < n; i++ {
+			d, sIdx := (i*5+3)%7, (i*3+1)%7
+			if d == sIdx {
+				sIdx = (sIdx + 1) % 7
+			}
+			fmt.Fprintf(&sb, "v%d = v%d\n", d, sIdx)
+			vals[d] = vals[sIdx]
+		}
+		body := sb.String()
+		exp := fmt.Sprintf("ok:%d,%d,%d,%d,%d,%d,%d,700", vals[0], vals[1], vals[2], vals[3], vals[4], vals[5], vals[6])
+		decl := "local v0, v1, v2, v3, v4, v5, v6 = 10, 20, 30, 40, 50, 60, 70\n"
+		ret := "local after = 700\nreturn v0, v1, v2, v3, v4, v5, v6, after"
+		add(fmt.Sprintf("moverun-%d-chunk", n), exp, func() string { return decl + body + ret })
+		add(fmt.Sprintf("moverun-%d-function", n), exp, func() string { return "local function f()\n" + decl + body + ret + "\nend\nreturn f()" })
+		add(fmt.Sprintf("moverun-%d-loop", n), exp, func() string {
+			return decl + "for round = 1, 1 do\n" + body + "end\n" + ret
 		})
 	}
 	for _, n := range []int{511, 512, 10000} {
@@ -331,7 +362,7 @@ func advCases(r *Rng, n int, full bool) []Case {
 		sel = grid
 	} else {
 		must := []string{"assign-targets-511", "assign-targets-600", "locals-199-call", "locals-200-genfor", "array-25551-existing-local",
-			"array-25600-const", "array-25551-operand-len", "array-25600-operand-len-arith", "array-25551-operand-call", "array-25601-operand-compare", "array-25551-operand-in-function", "array-25552-operand-store", "upvalues-255-read", "upvalues-256-read", "upvalues-290-read", "nest-200-functions",
+			"array-25600-const", "array-25600-call0", "array-25601-vararg0", "array-25551-call0", "moverun-514-chunk", "moverun-513-function", "moverun-1026-loop", "moverun-1537-chunk", "moverun-600-function", "moverun-512-chunk", "array-25551-operand-len", "array-25600-operand-len-arith", "array-25551-operand-call", "array-25601-operand-compare", "array-25551-operand-in-function", "array-25552-operand-store", "upvalues-255-read", "upvalues-256-read", "upvalues-290-read", "nest-200-functions",
 			"thread-70000-70000-ifelse-nested", "thread-65535-65536-ifelse-nested", "thread-65536-65536-while-if-break", "thread-131069-1-repeat-skip", "thread-65535-65536-goto-chain"}
 		byName := map[string]advCase{}
 		var small, big []advCase
